@@ -93,7 +93,7 @@ BLOCKS = {
                                                  [{"pol": 2}, {"pol": 1}], [{"pol": 1, "x": 3}, {"x": 1}]])},
         make=lambda a: lk.UserWaveguide(a["L"], (lambda wl, base, pol=0, **kw: base + pol / 4.0),
                                         param_dic={"base": a["base"]},
-                                        allowedmodes={"m0": dict(a["extras"][0]), "m1": dict(a["extras"][1])}),
+                                        allowedmodes={"tm": dict(a["extras"][0]), "te": dict(a["extras"][1])}),   # declared in non-alphabetical order
         kw=lambda a: {"wl": a["wl"]},
         term=lambda a: "UserWaveguide2 %s %s %s %s" % (rlit(a["L"]), rlit(a["base"] + a["extras"][0].get("pol", 0) / 4.0),
                                                       rlit(a["base"] + a["extras"][1].get("pol", 0) / 4.0), rlit(a["wl"])), n=4),
@@ -106,6 +106,9 @@ BLOCKS = {
         kw=lambda a: {} if a["fixed"] else {"angle": a["ang"]},
         term=lambda a: "PolRot %s" % rlit(a["ang"]), n=4),
 }
+
+PINS = {'Waveguide': ['a0', 'b0'], 'PhaseShifter': ['a0', 'b0'], 'PushPullPhaseShifter': ['a0', 'b0', 'a1', 'b1'], 'TH_PhaseShifter': ['a0', 'b0'], 'Attenuator': ['a0', 'b0'], 'LinearAttenuator': ['a0', 'b0'], 'PerfectMirror': ['a0'], 'Mirror': ['a0', 'b0'], 'BeamSplitter': ['a0', 'a1', 'b0', 'b1'], 'BeamSplitterT': ['a0', 'a1', 'b0', 'b1'], 'UserWaveguide': ['a0_tm', 'b0_tm', 'a0_te', 'b0_te'], 'Splitter1x2': ['a0', 'b0', 'b1'], 'PolRot': ['a0_pol0', 'a0_pol1', 'b0_pol0', 'b0_pol1']}
+
 
 UNFOLD = ("cbv [Waveguide PhaseShifter TH_PhaseShifter Attenuator LinearAttenuator PerfectMirror PushPull "
           "Mirror BeamSplitter BeamSplitterT UserWaveguide2 Splitter1x2 PolRot twoport wg_t att_amp bs_t bs_tt bs_c cscale cmulc cis C0 fst snd]")
@@ -158,11 +161,14 @@ class PhysicsStream(Stream):
                 m.put()
                 lk.raise_pins()
             mod = S.solve(**info["kw"](d["args"]))
-            # index by the block's own pin order
-            idx = [mod.pin_dic[p] for p in sorted(m.pin_dic, key=lambda p: m.pin_dic[p])]
-            return np.asarray(mod.S)[0][np.ix_(idx, idx)]
-        mod = m.solve(**info["kw"](d["args"]))
-        return np.asarray(mod.S)[0]
+        else:
+            mod = m.solve(**info["kw"](d["args"]))
+        # the coefficient between two pins is looked up BY NAME, in the documented pin order of the block
+        table = {p.name: i for p, i in mod.pin_dic.items()}
+        if sorted(table) != sorted(PINS[d["block"]]):
+            raise ValueError("pins of the block: %s" % sorted(table))
+        idx = [table[n] for n in PINS[d["block"]]]
+        return np.asarray(mod.S)[0][np.ix_(idx, idx)]
 
     header = None
 
